@@ -127,7 +127,7 @@ func setup(args map[string]string, tier string) error {
 	total := 0
 	for _, in := range faultInputs {
 		faultBase = append(faultBase, total)
-		total += (len(in.Data) + 1) * v2kit.ErrKinds * 2
+		total += (len(in.Data) + 1) * v2kit.ErrKinds * 4
 	}
 	faultBase = append(faultBase, total)
 	padBase = total
@@ -167,17 +167,18 @@ func (enum) RunCase(i int, c *hlib.Ctx) *hlib.Run {
 		j := i - faultBase[k]
 		in := faultInputs[k]
 		withData := j%2 == 1
-		j /= 2
+		once := (j/2)%2 == 1
+		j /= 4
 		kind := j % v2kit.ErrKinds
 		at := j / v2kit.ErrKinds
-		style := []int{2, 1, 3, 0}[(at+kind)%4]
+		style := []int{2, 1, 3, 0, 5}[(at+kind)%5]
 		w := worlds[(at/7+kind)%len(worlds)]
-		return faultRun(c, w, in, 0, at, kind, withData, style, true)
+		return faultRun(c, w, in, 0, at, kind, withData, once, style, true)
 	}
 	j := i - padBase
 	in := padInputs[j/padWidths]
 	pad := j % padWidths
-	return equalRun(c, worlds[padWorld[j/padWidths]], in, pad, []int{2, 0, 1, 3, 4}[pad%5], true)
+	return equalRun(c, worlds[padWorld[j/padWidths]], in, pad, []int{2, 0, 1, 3, 4, 5}[pad%6], true)
 }
 
 func reference(w world, in v2kit.Input) classifier.Results {
@@ -271,25 +272,25 @@ func equalRun(c *hlib.Ctx, w world, in v2kit.Input, pad int, style int, enumerat
 	return run
 }
 
-func faultRun(c *hlib.Ctx, w world, in v2kit.Input, pad, at, kind int, withData bool, style int, enumerated bool) *hlib.Run {
+func faultRun(c *hlib.Ctx, w world, in v2kit.Input, pad, at, kind int, withData, once bool, style int, enumerated bool) *hlib.Run {
 	run := &hlib.Run{Counters: map[string]int64{}}
 	data := padded(in, pad)
 	if at > len(data) {
 		at = len(data)
 	}
 	e, kname := v2kit.MakeErr(kind)
-	rd := v2kit.NewSimReader(data, c.S, style, &v2kit.Fault{At: at, Err: e, WithData: withData})
+	rd := v2kit.NewSimReader(data, c.S, style, &v2kit.Fault{At: at, Err: e, WithData: withData, Once: once})
 	rd.Trace = c.Trace
 	got, err, pan := callMatchFrom(w.c, rd)
 	addReaderStats(run, rd)
 	run.Counters["fault_runs"]++
 	run.Counters["fault_kind_"+kname]++
-	run.Sample = map[string]any{"mode": "fault", "world": w.name, "input": in.Desc, "len": len(data), "fault_at": at, "error": kname, "with_data": withData, "reader_style": style, "reads": rd.Stats.Reads}
+	run.Sample = map[string]any{"mode": "fault", "world": w.name, "input": in.Desc, "len": len(data), "fault_at": at, "error": kname, "with_data": withData, "error_reported_once_then_eof": once, "reader_style": style, "reads": rd.Stats.Reads}
 	run.Nontrivial = rd.Stats.FaultFired > 0
-	run.Hash = hlib.Hash64(w.name, string(data), fmt.Sprint(at, kind, withData)) ^ rd.SchedHash
+	run.Hash = hlib.Hash64(w.name, string(data), fmt.Sprint(at, kind, withData, once)) ^ rd.SchedHash
 	run.Steps = rd.Stats.Reads
 	if c.Trace {
-		run.Trace = append(run.Trace, fmt.Sprintf("world=%s input=%s len=%d pad=%d fault_at=%d error=%s with_data=%v style=%d", w.name, in.Desc, len(in.Data), pad, at, kname, withData, style))
+		run.Trace = append(run.Trace, fmt.Sprintf("world=%s input=%s len=%d pad=%d fault_at=%d error=%s with_data=%v once=%v style=%d", w.name, in.Desc, len(in.Data), pad, at, kname, withData, once, style))
 		run.Trace = append(run.Trace, rd.Log()...)
 	}
 	if rd.Stats.FaultFired == 0 {
@@ -406,7 +407,7 @@ func seededRun(c *hlib.Ctx) *hlib.Run {
 	maxLen := []int{0, 0, 1030, 2052, 3072, 5000, 200000}[s.Draw(7, "maxlen")]
 	in := pool.Gen(s, maxLen)
 	pad := drawPad(s)
-	style := s.Pick([]int{6, 1, 1, 1, 1}, "style")
+	style := s.Pick([]int{6, 1, 1, 1, 1, 1}, "style")
 	if c.RunIx%3 == 2 {
 		n := pad + len(in.Data)
 		at := 0
@@ -423,7 +424,7 @@ func seededRun(c *hlib.Ctx) *hlib.Run {
 		if at < 0 {
 			at = 0
 		}
-		return faultRun(c, w, in, pad, at, s.Draw(v2kit.ErrKinds, "fault-kind"), s.Draw(2, "fault-withdata") == 1, style, false)
+		return faultRun(c, w, in, pad, at, s.Draw(v2kit.ErrKinds, "fault-kind"), s.Draw(2, "fault-withdata") == 1, s.Draw(2, "fault-once") == 1, style, false)
 	}
 	return equalRun(c, w, in, pad, style, s.Draw(4, "also-match-padded") == 0)
 }
@@ -437,8 +438,8 @@ func main() {
 		Info: func() map[string]any {
 			return map[string]any{
 				"real_code":       []string{"v2 classifier (tokenizer, searchset, scoring, diff), go-diff: compiled unmodified from the tree under test"},
-				"simulated":       []string{"io.Reader handed to MatchFrom: fragmentation, zero-length reads, data-with-EOF, sticky faults of 7 kinds (sentinel, wrapped sentinel, io.ErrUnexpectedEOF, io.ErrClosedPipe, non-comparable error type, error wrapping io.EOF, deadline) in 2 delivery forms"},
-				"enumerated":      fmt.Sprintf("%d fault cases = every offset 0..len of %d inputs x 7 error kinds x 2 delivery forms; %d pad cases = every width 0..%d of %d inputs", padBase, len(faultInputs), len(padInputs)*padWidths, padWidths-1, len(padInputs)),
+				"simulated":       []string{"io.Reader handed to MatchFrom: fragmentation, zero-length reads, data-with-EOF, sticky faults of 7 kinds (sentinel, wrapped sentinel, io.ErrUnexpectedEOF, io.ErrClosedPipe, non-comparable error type, error wrapping io.EOF, deadline) in 4 delivery forms; reader styles include a stuttering one (a zero-length read before every small chunk)"},
+				"enumerated":      fmt.Sprintf("%d fault cases = every offset 0..len of %d inputs x 7 error kinds x 4 delivery forms (error alone / with the last bytes, sticky / reported once then EOF); %d pad cases = every width 0..%d of %d inputs", padBase, len(faultInputs), len(padInputs)*padWidths, padWidths-1, len(padInputs)),
 				"worlds":          []string{"full embedded corpus @0.8", "every 9th document @0.7", "every 9th document @1.0", "every 9th document plus a user-added document of accented words @0.8"},
 				"fault_free_runs": "seeded runs with index%3 != 2; faults only in runs with index%3 == 2 (separate configurations)",
 			}
